@@ -197,10 +197,18 @@ func (b *Batch) Commit() error {
 	logRecord := b.db.recordPool.Get().(*datafile.LogRecord)
 	logRecord.Key = append(logRecord.Key, b.batchID.Bytes()...)
 	logRecord.Type = datafile.LogRecordBatchFinished
+	// 完成标识记录必须携带相同的批次 ID, 重启时据此提交该批次的暂存记录
+	logRecord.BatchID = uint64(b.batchID)
 	_, err = b.db.activeFile.WriteLogRecord(logRecord, b.db.logRecordHeader)
 	b.db.putRecordToPool(logRecord)
 	if err != nil {
 		return err
+	}
+	// 完成标识记录同样需要持久化, 否则断电后整个批次不可见
+	if b.options.Sync {
+		if err := b.db.activeFile.Sync(); err != nil {
+			return err
+		}
 	}
 
 	b.staged = nil
